@@ -6,8 +6,8 @@ Import ListNotations.
 (* ------------------------------------------------------------------ *)
 (* obligations on the clauses read from the source                      *)
 
-(* get_rbuilds_in_bump prunes exactly at the from-builds (what [collect] models) *)
-Lemma src_prune_ok : src_prune = PruneAtFrom.
+(* get_rbuilds_in_bump prunes at the from-builds AND their ancestors (what [excluded] + [collect] model) *)
+Lemma src_prune_ok : src_prune = PruneAtFromAncestors.
 Proof. reflexivity. Qed.
 
 (* is_rbuild has the disjunct "non_trivial_bumps_present" *)
@@ -119,6 +119,22 @@ Lemma release_tag_pin_l : forall saved M m n pin,
 Proof. intros. rewrite finalize_release_l, bn_eqb_eq. split; congruence. Qed.
 
 (* ------------------------------------------------------------------ *)
+(* sets as sorted lists *)
+
+Lemma nadd_In x y l : In x (nadd y l) <-> x = y \/ In x l.
+Proof.
+  induction l as [|z r IH]; cbn [nadd]; [cbn; intuition|].
+  destruct (y =? z) eqn:E; [apply Nat.eqb_eq in E; subst; cbn; intuition|].
+  destruct (y <? z); cbn [In]; [intuition|]. rewrite IH. intuition.
+Qed.
+
+Lemma nunion_In x a b : In x (nunion a b) <-> In x a \/ In x b.
+Proof.
+  unfold nunion. revert b. induction a as [|y r IH]; intros b; cbn [fold_left]; [cbn; intuition|].
+  rewrite IH, nadd_In. cbn [In]. intuition.
+Qed.
+
+(* ------------------------------------------------------------------ *)
 (* the component's RBuild graph                                         *)
 
 Section Graph.
@@ -174,16 +190,17 @@ Proof.
       right. exists q. split; assumption.
 Qed.
 
-(* what the DFS of get_rbuilds_in_bump collects *)
-Lemma collect_spec from : wf -> forall fuel x, x < fuel ->
-  exists l, collect fuel cg from x = Some l /\ forall y, In y l <-> apath from x y.
+
+(* what the DFS of get_rbuilds_in_bump collects, for any set [ex] of excluded builds *)
+Lemma collect_spec ex : wf -> forall fuel x, x < fuel ->
+  exists l, collect fuel cg ex x = Some l /\ forall y, In y l <-> apath ex x y.
 Proof.
   intros W. induction fuel as [|f IH]; intros x Hx; [lia|].
-  cbn [collect]. destruct (nmem x from) eqn:M.
+  cbn [collect]. destruct (nmem x ex) eqn:M.
   - apply nmem_In in M. exists []. split; [reflexivity|]. intros y. split; [intros []|].
     intros H. exfalso. inversion H; subst; contradiction.
   - apply nmem_false in M.
-    destruct (fold_collect (collect f cg from) (apath from) (rev (nsort (cparents cg x)))) with (a := @nil nat) as (l & E & Hl).
+    destruct (fold_collect (collect f cg ex) (apath ex) (rev (nsort (cparents cg x)))) with (a := @nil nat) as (l & E & Hl).
     { intros p Hp. apply in_rev in Hp. apply (proj1 (nsort_In _ _)) in Hp. apply IH. pose proof (W x p Hp). lia. }
     rewrite E. exists (l ++ [x]). split; [reflexivity|].
     intros y. rewrite in_app_iff, Hl. split.
@@ -195,18 +212,118 @@ Proof.
       * left. right. exists p. split; [|assumption]. rewrite <- in_rev. apply nsort_In. assumption.
 Qed.
 
-(* get_rbuilds_in_bump(): exactly the builds reached on a from-avoiding path, each once *)
-Lemma rbuilds_in_bump_spec b t : wf -> b_to b = Some t ->
-  exists l, rbuilds_in_bump cg b = Some l /\ NoDup l /\ forall y, In y l <-> apath (b_from b) t y.
+(* ------------------------------------------------------------------ *)
+(* excluded_iids: the from-builds and all their ancestors               *)
+
+(* potential of the work-list loop: the parents of the builds (below n) not entered yet *)
+Definition wsum (ex l : list nat) : nat :=
+  fold_right (fun x a => if nmem x ex then a else length (cparents cg x) + a) 0 l.
+
+Lemma nmem_nadd a x ex : nmem a (nadd x ex) = (a =? x) || nmem a ex.
 Proof.
-  intros W Et. unfold rbuilds_in_bump. rewrite Et.
-  destruct (collect_spec (b_from b) W (S t) t ltac:(lia)) as (l & E & Hl). rewrite E.
-  exists (nodup Nat.eq_dec l). split; [reflexivity|]. split; [apply NoDup_nodup|].
-  intros y. rewrite nodup_In. apply Hl.
+  apply Bool.eq_iff_eq_true. rewrite orb_true_iff, !nmem_In, nadd_In, Nat.eqb_eq. tauto.
 Qed.
 
-Lemma rbuilds_in_bump_none b : b_to b = None -> rbuilds_in_bump cg b = Some [].
-Proof. intros E. unfold rbuilds_in_bump. rewrite E. reflexivity. Qed.
+Lemma wsum_cons ex a r :
+  wsum ex (a :: r) = if nmem a ex then wsum ex r else length (cparents cg a) + wsum ex r.
+Proof. reflexivity. Qed.
+
+Lemma wsum_skip x ex l : ~ In x l -> wsum (nadd x ex) l = wsum ex l.
+Proof.
+  induction l as [|a r IH]; intros N; [reflexivity|]. rewrite !wsum_cons.
+  rewrite nmem_nadd. destruct (a =? x) eqn:E.
+  - apply Nat.eqb_eq in E. subst. exfalso. apply N. left. reflexivity.
+  - cbn [orb]. rewrite IH; [reflexivity|]. intros H. apply N. right. exact H.
+Qed.
+
+Lemma wsum_add x ex l : NoDup l -> In x l -> ~ In x ex ->
+  wsum ex l = length (cparents cg x) + wsum (nadd x ex) l.
+Proof.
+  induction l as [|a r IH]; intros ND Hx Nx; [destruct Hx|].
+  apply NoDup_cons_iff in ND as [Na ND]. rewrite !wsum_cons.
+  rewrite nmem_nadd. destruct Hx as [->|Hx].
+  - rewrite Nat.eqb_refl. cbn [orb]. apply nmem_false in Nx. rewrite Nx. rewrite wsum_skip by exact Na. reflexivity.
+  - destruct (a =? x) eqn:E.
+    + apply Nat.eqb_eq in E. subst. contradiction.
+    + cbn [orb]. rewrite (IH ND Hx Nx). destruct (nmem a ex); lia.
+Qed.
+
+Lemma sum_parents_wsum n : sum_parents cg n = wsum [] (seq 0 n).
+Proof. reflexivity. Qed.
+
+(* the loop `while todo:` ends within the fuel and returns a set that contains what was
+   collected before and the work list, is closed under parent_rbuilds, and contains nothing else *)
+Lemma excl_loop_spec (W : wf) n : forall fuel todo ex,
+  (forall x, In x todo -> x < n) ->
+  (forall x p, In x ex -> In p (cparents cg x) -> In p ex \/ In p todo) ->
+  length todo + wsum ex (seq 0 n) < fuel ->
+  exists ex', excl_loop fuel cg todo ex = Some ex' /\
+    (forall y, In y ex -> In y ex') /\ (forall x, In x todo -> In x ex') /\
+    (forall x p, In x ex' -> In p (cparents cg x) -> In p ex') /\
+    (forall y, In y ex' -> In y ex \/ exists x, In x todo /\ anc x y).
+Proof.
+  induction fuel as [|f IH]; intros todo ex B C F; [lia|].
+  cbn [excl_loop]. destruct todo as [|x r].
+  - exists ex. split; [reflexivity|]. split; [auto|]. split; [intros x []|]. split; [|auto].
+    intros x p Hx Hp. destruct (C x p Hx Hp) as [H|[]]. exact H.
+  - destruct (nmem x ex) eqn:M.
+    + apply nmem_In in M.
+      destruct (IH r ex) as (ex' & E & H1 & H2 & H3 & H4).
+      { intros z Hz. apply B. right. exact Hz. }
+      { intros z p Hz Hp. destruct (C z p Hz Hp) as [H|[<-|H]]; auto. }
+      { cbn [length] in F. lia. }
+      exists ex'. split; [exact E|]. split; [exact H1|]. split.
+      { intros z [<-|Hz]; [apply H1; exact M|apply H2; exact Hz]. }
+      split; [exact H3|]. intros y Hy. destruct (H4 y Hy) as [H|(z & Hz & A)]; [left; exact H|].
+      right. exists z. split; [right; exact Hz|exact A].
+    + apply nmem_false in M.
+      assert (x < n) as Hxn by (apply B; left; reflexivity).
+      destruct (IH (rev (cparents cg x) ++ r) (nadd x ex)) as (ex' & E & H1 & H2 & H3 & H4).
+      { intros z Hz. apply in_app_or in Hz as [Hz|Hz].
+        - apply in_rev in Hz. pose proof (W x z Hz). lia.
+        - apply B. right. exact Hz. }
+      { intros z p Hz Hp. apply nadd_In in Hz as [->|Hz].
+        - right. apply in_or_app. left. apply -> in_rev. exact Hp.
+        - destruct (C z p Hz Hp) as [H|[<-|H]].
+          + left. apply nadd_In. right. exact H.
+          + left. apply nadd_In. left. reflexivity.
+          + right. apply in_or_app. right. exact H. }
+      { rewrite app_length, rev_length. cbn [length] in F.
+        rewrite (wsum_add x ex (seq 0 n)) in F; [lia|apply seq_NoDup|apply in_seq; lia|exact M]. }
+      exists ex'. split; [exact E|]. split.
+      { intros y Hy. apply H1. apply nadd_In. right. exact Hy. }
+      split.
+      { intros z [<-|Hz]; [apply H1; apply nadd_In; left; reflexivity|]. apply H2. apply in_or_app. right. exact Hz. }
+      split; [exact H3|].
+      intros y Hy. destruct (H4 y Hy) as [H|(z & Hz & A)].
+      * apply nadd_In in H as [->|H]; [|left; exact H]. right. exists x. split; [left; reflexivity|apply anc_refl].
+      * apply in_app_or in Hz as [Hz|Hz].
+        -- apply in_rev in Hz. right. exists x. split; [left; reflexivity|]. eapply anc_step; eauto.
+        -- right. exists z. split; [right; exact Hz|exact A].
+Qed.
+
+Lemma nmax_ge l x : In x l -> exists m, nmax l = Some m /\ x <= m.
+Proof.
+  induction l as [|a r IH]; intros H; [destruct H|]. cbn [nmax]. destruct H as [->|H].
+  - destruct (nmax r) as [m|]; eexists; split; try reflexivity; lia.
+  - destruct (IH H) as (m & -> & L). eexists. split; [reflexivity|]. lia.
+Qed.
+
+(* excluded_iids = ancestors*(from_rbuilds), for every from-set *)
+Lemma excluded_spec from : wf ->
+  exists ex, excluded cg from = Some ex /\ forall y, In y ex <-> exists f, In f from /\ anc f y.
+Proof.
+  intros W. unfold excluded, excl_fuel.
+  set (n := match nmax from with Some m => S m | None => 0 end).
+  destruct (excl_loop_spec W n (S (length from + sum_parents cg n)) (rev from) []) as (ex & E & _ & H2 & H3 & H4).
+  - intros x Hx. apply in_rev in Hx. destruct (nmax_ge _ _ Hx) as (m & Em & L). unfold n. rewrite Em. lia.
+  - intros x p [].
+  - rewrite rev_length, sum_parents_wsum. lia.
+  - exists ex. split; [exact E|]. intros y. split.
+    + intros Hy. destruct (H4 y Hy) as [[]|(x & Hx & A)]. exists x. split; [apply in_rev; exact Hx|exact A].
+    + intros (f & Hf & A). assert (In f ex) as Hfe by (apply H2; apply -> in_rev; exact Hf).
+      clear Hf. induction A as [x|x p y Hp _ IH]; [exact Hfe|]. apply IH. eapply H3; eauto.
+Qed.
 
 (* ------------------------------------------------------------------ *)
 (* bump_set                                                             *)
@@ -215,90 +332,57 @@ Proof. intros E. unfold rbuilds_in_bump. rewrite E. reflexivity. Qed.
 Definition bump_spec (from : list nat) (t y : nat) : Prop :=
   anc t y /\ forall f, In f from -> ~ anc f y.
 
-(* the from-builds cut the graph: no path from [t] into their ancestry by-passes them *)
-Definition separates (from : list nat) (t : nat) : Prop :=
-  forall f y, In f from -> anc f y -> ~ apath from t y.
-
-(* always: everything the property wants is collected *)
-Lemma bump_set_complete from t y : bump_spec from t y -> apath from t y.
-Proof. intros [A N]. apply anc_apath; assumption. Qed.
-
-(* nothing else is collected exactly when the from-builds separate *)
-Lemma bump_set_sound_iff from t :
-  (forall y, apath from t y -> bump_spec from t y) <-> separates from t.
+(* a path that avoids the ancestors of the from-builds = a build the from-builds do not contain *)
+Lemma apath_excluded from ex t y :
+  (forall z, In z ex <-> exists f, In f from /\ anc f z) -> (apath ex t y <-> bump_spec from t y).
 Proof.
-  split.
-  - intros H f y Hf A P. destruct (H y P) as [_ N]. exact (N f Hf A).
-  - intros S y P. split; [eapply apath_anc; eauto|]. intros f Hf A. exact (S f y Hf A P).
+  intros Hex. split.
+  - intros P. split; [eapply apath_anc; eauto|]. intros f Hf A.
+    apply (apath_end _ _ _ P). apply Hex. exists f. split; assumption.
+  - intros [A N]. apply anc_apath; [exact A|]. intros e He Ae.
+    apply Hex in He as (f & Hf & Af). apply (N f Hf). eapply anc_trans; eauto.
 Qed.
 
-(* a linear history (at most one parent build each) with from-builds that the new
-   pin contains is separated *)
-Definition linear : Prop := forall x, length (cparents cg x) <= 1.
-
-Lemma linear_unique x p q : linear -> In p (cparents cg x) -> In q (cparents cg x) -> p = q.
+(* get_rbuilds_in_bump(): exactly ancestors*(to) \ ancestors*(from), each build once *)
+Lemma rbuilds_in_bump_spec b t : wf -> b_to b = Some t ->
+  exists l, rbuilds_in_bump cg b = Some l /\ NoDup l /\ forall y, In y l <-> bump_spec (b_from b) t y.
 Proof.
-  intros L Hp Hq. specialize (L x). destruct (cparents cg x) as [|a [|b r]]; cbn in *; try lia; try contradiction.
+  intros W Et. unfold rbuilds_in_bump. rewrite Et.
+  destruct (excluded_spec (b_from b) W) as (ex & Ex & Hex). rewrite Ex.
+  destruct (collect_spec ex W (S t) t ltac:(lia)) as (l & E & Hl). rewrite E.
+  exists (nodup Nat.eq_dec l). split; [reflexivity|]. split; [apply NoDup_nodup|].
+  intros y. rewrite nodup_In, Hl. apply apath_excluded. exact Hex.
 Qed.
 
-(* in a linear history two ancestors of the same build are comparable *)
-Lemma linear_chain x f y : linear -> anc x f -> anc x y -> anc f y \/ anc y f.
-Proof.
-  intros L A. revert y. induction A as [x|x p f Hp A IH]; intros y B.
-  - left. exact B.
-  - inversion B; subst.
-    + right. eapply anc_step; eauto.
-    + assert (p = p0) by (eapply linear_unique; eauto). subst p0. apply IH. assumption.
-Qed.
+Lemma rbuilds_in_bump_none b : b_to b = None -> rbuilds_in_bump cg b = Some [].
+Proof. intros E. unfold rbuilds_in_bump. rewrite E. reflexivity. Qed.
 
 Lemma anc_le x y : wf -> anc x y -> y <= x.
 Proof. intros W. induction 1 as [x|x p y Hp _ IH]; [lia|]. pose proof (W x p Hp). lia. Qed.
 
-Lemma anc_antisym x y : wf -> anc x y -> anc y x -> x = y.
-Proof. intros W A B. pose proof (anc_le _ _ W A). pose proof (anc_le _ _ W B). lia. Qed.
-
-(* on a linear history every path from t to y goes through every f between them *)
-Lemma linear_through from t f y : linear -> wf -> In f from -> anc t f -> anc f y -> ~ apath from t y.
-Proof.
-  intros L W Hf Atf Afy P. revert f Hf Atf Afy. induction P as [x Hx|x p y Hx Hp P IH]; intros f Hf Atf Afy.
-  - assert (f = x) by (apply anc_antisym; assumption). subst. contradiction.
-  - inversion Atf; subst; [contradiction|].
-    assert (p = p0) by (eapply linear_unique; eauto). subst p0. eapply IH; eauto.
-Qed.
-
-Lemma linear_separates from t : linear -> wf -> (forall f, In f from -> anc t f) -> separates from t.
-Proof. intros L W H f y Hf A. eapply linear_through; eauto. Qed.
-
 End Graph.
 
-(* the statement at full strength (false for the current code, see bump_set_refuted) *)
+(* the statement at full strength: for from-builds contained in the new pin (in fact for any
+   from-builds), get_rbuilds_in_bump = ancestors*(to) \ ancestors*(from) *)
 Definition bump_set_statement : Prop :=
   forall cg b t l, wf cg -> b_to b = Some t -> (forall f, In f (b_from b) -> anc cg t f) ->
     rbuilds_in_bump cg b = Some l -> forall y, In y l <-> bump_spec cg (b_from b) t y.
 
-(* proved: under the guard that the from-builds separate (necessary and sufficient) *)
-Lemma bump_set_guarded cg b t : wf cg -> b_to b = Some t ->
+(* total, duplicate free, exact -- whatever the from-builds are *)
+Lemma bump_set_exact_l cg b t : wf cg -> b_to b = Some t ->
   exists l, rbuilds_in_bump cg b = Some l /\ NoDup l /\
-    (forall y, bump_spec cg (b_from b) t y -> In y l) /\
-    (separates cg (b_from b) t <-> forall y, In y l -> bump_spec cg (b_from b) t y).
+    forall y, In y l <-> (anc cg t y /\ forall f, In f (b_from b) -> ~ anc cg f y).
+Proof. intros W Et. exact (rbuilds_in_bump_spec cg b t W Et). Qed.
+
+Lemma bump_set_statement_l : bump_set_statement.
 Proof.
-  intros W Et. destruct (rbuilds_in_bump_spec cg b t W Et) as (l & E & ND & Hl).
-  exists l. split; [exact E|]. split; [exact ND|]. split.
-  - intros y S. apply Hl. apply bump_set_complete. exact S.
-  - rewrite <- bump_set_sound_iff. split; intros H y Hy; apply H; apply Hl; exact Hy.
+  intros cg b t l W Et _ E. destruct (rbuilds_in_bump_spec cg b t W Et) as (l' & E' & _ & Hl).
+  rewrite E in E'. injection E' as <-. exact Hl.
 Qed.
 
-Lemma bump_set_linear cg b t : wf cg -> linear cg -> b_to b = Some t ->
-  (forall f, In f (b_from b) -> anc cg t f) ->
-  exists l, rbuilds_in_bump cg b = Some l /\ NoDup l /\ forall y, In y l <-> bump_spec cg (b_from b) t y.
-Proof.
-  intros W L Et Hf. destruct (bump_set_guarded cg b t W Et) as (l & E & ND & C & S).
-  exists l. split; [exact E|]. split; [exact ND|]. intros y. split; [|apply C].
-  apply S. apply linear_separates; assumption.
-Qed.
-
-(* the witness: component builds 0 <- {1, 2} <- 3 (1 || 2), pin moves from 2 to 3:
-   build 0, an ancestor of the from-build 2, is collected through 1 *)
+(* the former witness of the refutation: component builds 0 <- {1, 2} <- 3 (1 || 2), pin moves
+   from 2 to 3.  Build 0, an ancestor of the from-build 2, was collected through 1 by the code
+   before d037b67; it is excluded now. *)
 Definition w_cg : cgraph := [(0, []); (1, [0]); (2, [0]); (3, [1; 2])].
 Definition w_bump : bump := mkB [(1, 1, 5)%Z] (1, 1, 7)%Z [2] (Some 3).
 
@@ -308,85 +392,8 @@ Proof.
   destruct x as [|[|[|[|x]]]]; cbn; intros H; repeat (destruct H as [<-|H]; [lia|]); destruct H.
 Qed.
 
-Lemma bump_set_refuted_l : ~ bump_set_statement.
-Proof.
-  intros S.
-  assert (rbuilds_in_bump w_cg w_bump = Some [0; 1; 3]) as E by (vm_compute; reflexivity).
-  assert (forall f, In f (b_from w_bump) -> anc w_cg 3 f) as Hf.
-  { intros f [<-|[]]. eapply anc_step; [|apply anc_refl]. cbn. auto. }
-  pose proof (proj1 (S w_cg w_bump 3 _ w_wf eq_refl Hf E 0) ltac:(cbn; auto)) as [_ N].
-  apply (N 2); [left; reflexivity|]. eapply anc_step; [|apply anc_refl]. cbn. auto.
-Qed.
-
 (* ------------------------------------------------------------------ *)
-(* included_first: a chain of reported parent builds                    *)
-
-(* the bumps of the successive reported builds of a linear parent branch:
-   each bump's from-build is the previous bump's to-build, and pins only grow *)
-Inductive chain (cg : cgraph) : option nat -> list bump -> Prop :=
-| ch_nil p : chain cg p []
-| ch_first b t r : b_to b = Some t -> b_from b = [] -> chain cg (Some t) r -> chain cg None (b :: r)
-| ch_next p b t r : b_to b = Some t -> b_from b = [p] -> anc cg t p -> chain cg (Some t) r ->
-                    chain cg (Some p) (b :: r).
-
-(* the pinned version of the i-th reported build contains component build y *)
-Definition ships (cg : cgraph) (bs : list bump) (i y : nat) : Prop :=
-  exists b t, nth_error bs i = Some b /\ b_to b = Some t /\ anc cg t y.
-
-Lemma chain_inv_none cg b r : chain cg None (b :: r) ->
-  exists t, b_to b = Some t /\ b_from b = [] /\ chain cg (Some t) r.
-Proof. intros C. inversion C; subst. eauto. Qed.
-
-Lemma chain_inv_some cg p b r : chain cg (Some p) (b :: r) ->
-  exists t, b_to b = Some t /\ b_from b = [p] /\ anc cg t p /\ chain cg (Some t) r.
-Proof. intros C. inversion C; subst. eauto. Qed.
-
-Lemma chain_first cg (W : wf cg) (L : linear cg) : forall bs p, chain cg p bs ->
-  forall i b, nth_error bs i = Some b ->
-  exists l, rbuilds_in_bump cg b = Some l /\ NoDup l /\
-    forall y, In y l <->
-      (ships cg bs i y /\ (forall j, j < i -> ~ ships cg bs j y) /\ (forall q, p = Some q -> ~ anc cg q y)).
-Proof.
-  induction bs as [|b0 r IH]; intros p C i b Hb; [destruct i; discriminate|].
-  destruct i as [|i].
-  - cbn in Hb. injection Hb as <-. destruct p as [p|].
-    + destruct (chain_inv_some _ _ _ _ C) as (t & H1 & H2 & H3 & H4).
-      destruct (bump_set_linear cg b0 t W L H1) as (l & E & ND & Hl).
-      { rewrite H2. intros f [<-|[]]. assumption. }
-      exists l. split; [exact E|]. split; [exact ND|]. intros y. rewrite Hl. unfold bump_spec. rewrite H2. split.
-      * intros [A N]. split; [exists b0, t; cbn; auto|]. split; [intros j Hj; lia|].
-        intros q [= <-]. apply N. left. reflexivity.
-      * intros ((b' & t' & E1 & E2 & E3) & _ & N). cbn in E1. injection E1 as <-. rewrite H1 in E2. injection E2 as <-.
-        split; [exact E3|]. intros f [<-|[]]. apply N. reflexivity.
-    + destruct (chain_inv_none _ _ _ C) as (t & H1 & H2 & H4).
-      destruct (bump_set_linear cg b0 t W L H1) as (l & E & ND & Hl).
-      { rewrite H2. intros f []. }
-      exists l. split; [exact E|]. split; [exact ND|]. intros y. rewrite Hl. unfold bump_spec. rewrite H2. split.
-      * intros [A _]. split; [exists b0, t; cbn; auto|]. split; [intros j Hj; lia|]. intros q [=].
-      * intros ((b' & t' & E1 & E2 & E3) & _). cbn in E1. injection E1 as <-. rewrite H1 in E2. injection E2 as <-.
-        split; [exact E3|]. intros f [].
-  - cbn in Hb.
-    assert (exists t, b_to b0 = Some t /\ chain cg (Some t) r /\ (forall q, p = Some q -> anc cg t q)) as (t & Et & Cr & Hq).
-    { destruct p as [p|].
-      - destruct (chain_inv_some _ _ _ _ C) as (t & H1 & H2 & H3 & H4). exists t. split; [exact H1|]. split; [exact H4|].
-        intros q [= <-]. exact H3.
-      - destruct (chain_inv_none _ _ _ C) as (t & H1 & H2 & H4). exists t. split; [exact H1|]. split; [exact H4|].
-        intros q [=]. }
-    destruct (IH (Some t) Cr i b Hb) as (l & E & ND & Hl).
-    exists l. split; [exact E|]. split; [exact ND|]. intros y. rewrite Hl. split.
-    + intros ((b' & t' & E1 & E2 & E3) & N1 & N2). split; [exists b', t'; cbn; auto|]. split.
-      * intros [|j] Hj.
-        -- intros (b'' & t'' & F1 & F2 & F3). cbn in F1. injection F1 as <-. rewrite Et in F2. injection F2 as <-.
-           apply (N2 t eq_refl). exact F3.
-        -- intros (b'' & t'' & F1 & F2 & F3). apply (N1 j); [lia|]. exists b'', t''. cbn in F1. auto.
-      * intros q Hp A. apply (N2 t eq_refl). eapply anc_trans; [apply Hq; exact Hp|exact A].
-    + intros ((b' & t' & E1 & E2 & E3) & N1 & N2). split; [exists b', t'; cbn in E1; auto|]. split.
-      * intros j Hj (b'' & t'' & F1 & F2 & F3). apply (N1 (S j)); [lia|]. exists b'', t''. cbn. auto.
-      * intros q [= <-] A. apply (N1 0); [lia|]. exists b0, t. cbn. auto.
-Qed.
-
-(* ------------------------------------------------------------------ *)
-(* the registration loop over one branch                                *)
+(* the registration loop                                                *)
 
 Definition reg_step (ci : cinfo) (br : nat) (acc : option (list (nat * (nat * bn)))) (p : Z * rbuild) :=
   let rb := snd p in
@@ -399,45 +406,420 @@ Definition reg_step (ci : cinfo) (br : nat) (acc : option (list (nat * (nat * bn
                    end
        end.
 
-Lemma registrations_one ci br rbs :
-  registrations ci [(br, rbs)] = fold_left (reg_step ci br) rbs (Some []).
+Definition reg_branches (ci : cinfo) (branches : list (nat * list (Z * rbuild))) acc :=
+  fold_left (fun acc br => fold_left (reg_step ci (fst br)) (snd br) acc) branches acc.
+
+Lemma registrations_unfold ci branches : registrations ci branches = reg_branches ci branches (Some []).
 Proof. reflexivity. Qed.
 
-(* a registration is produced by some rbuild of the branch, from its own bump *)
-Lemma reg_fold ci br rbs : forall a regs,
-  fold_left (reg_step ci br) rbs (Some a) = Some regs ->
-  forall y k, In (y, (br, k)) regs <->
-    In (y, (br, k)) a \/
-    exists p b l, In p rbs /\ rb_bn (snd p) = k /\ bn_eqb k fake_not_merged = false /\
-                  rb_bump (snd p) = Some b /\ rbuilds_in_bump (ci_graph ci) b = Some l /\ In y l.
+Lemma reg_fold_none ci br rbs : fold_left (reg_step ci br) rbs None = None.
 Proof.
-  induction rbs as [|p r IH]; intros a regs H y k; cbn [fold_left] in H.
-  - injection H as <-. split; [auto|]. intros [Hy|(p & b & l & [] & _)]. exact Hy.
-  - unfold reg_step at 2 in H.
-    destruct (bn_eqb (rb_bn (snd p)) fake_not_merged) eqn:F.
-    + rewrite (IH _ _ H). split.
-      * intros [Hy|(q & b & l & Hq & R)]; [left; exact Hy|]. right. exists q, b, l. split; [right; exact Hq|exact R].
-      * intros [Hy|(q & b & l & [<-|Hq] & E1 & E2 & R)]; [left; exact Hy| |].
-        -- subst k. congruence.
-        -- right. exists q, b, l. tauto.
-    + destruct (rb_bump (snd p)) as [b|] eqn:B.
-      * destruct (rbuilds_in_bump (ci_graph ci) b) as [l|] eqn:R.
-        -- rewrite (IH _ _ H), in_app_iff, in_map_iff. split.
-           ++ intros [[Hy|(x & E & Hx)]|(q & b' & l' & Hq & R')].
-              ** left. exact Hy.
-              ** injection E as -> <-. right. exists p, b, l. split; [left; reflexivity|]. tauto.
-              ** right. exists q, b', l'. split; [right; exact Hq|exact R'].
-           ++ intros [Hy|(q & b' & l' & [<-|Hq] & E1 & E2 & E3 & E4 & E5)].
-              ** left. left. exact Hy.
-              ** left. right. rewrite B in E3. injection E3 as <-. rewrite R in E4. injection E4 as <-.
-                 exists y. split; [rewrite E1; reflexivity|exact E5].
-              ** right. exists q, b', l'. tauto.
-        -- exfalso. clear -H. induction r as [|q r IH]; cbn in H; [discriminate|]. apply IH.
-           unfold reg_step at 2 in H. destruct (bn_eqb _ _); [exact H|]. destruct (rb_bump (snd q)); exact H.
-      * rewrite (IH _ _ H). split.
-        -- intros [Hy|(q & b & l & Hq & R)]; [left; exact Hy|]. right. exists q, b, l. split; [right; exact Hq|exact R].
-        -- intros [Hy|(q & b & l & [<-|Hq] & E1 & E2 & E3 & R)]; [left; exact Hy|congruence|].
-           right. exists q, b, l. tauto.
+  induction rbs as [|q r IH]; [reflexivity|]. cbn [fold_left].
+  assert (reg_step ci br None q = None) as ->; [|exact IH].
+  unfold reg_step. destruct (bn_eqb _ _); [reflexivity|]. destruct (rb_bump (snd q)); reflexivity.
+Qed.
+
+Lemma reg_branches_none ci branches : reg_branches ci branches None = None.
+Proof.
+  induction branches as [|b r IH]; [reflexivity|]. unfold reg_branches in *. cbn [fold_left].
+  rewrite reg_fold_none. exact IH.
+Qed.
+
+(* component build y is registered with build number k by some reported build of [rbs]:
+   a build that is not the "not merged" pseudo build, from its own bump *)
+Definition reg_src (ci : cinfo) (rbs : list (Z * rbuild)) (y : nat) (k : bn) : Prop :=
+  exists p b l, In p rbs /\ rb_bn (snd p) = k /\ bn_eqb k fake_not_merged = false /\
+                rb_bump (snd p) = Some b /\ rbuilds_in_bump (ci_graph ci) b = Some l /\ In y l.
+
+Lemma reg_step_spec ci br0 a p a' : reg_step ci br0 (Some a) p = Some a' ->
+  forall y br k, In (y, (br, k)) a' <->
+    In (y, (br, k)) a \/
+    (br = br0 /\ exists b l, rb_bn (snd p) = k /\ bn_eqb k fake_not_merged = false /\
+                  rb_bump (snd p) = Some b /\ rbuilds_in_bump (ci_graph ci) b = Some l /\ In y l).
+Proof.
+  unfold reg_step. destruct (bn_eqb (rb_bn (snd p)) fake_not_merged) eqn:F.
+  - intros [= <-] y br k. split; [auto|]. intros [H|(_ & b & l & E1 & E2 & _)]; [exact H|]. subst k. congruence.
+  - destruct (rb_bump (snd p)) as [b|] eqn:B.
+    + destruct (rbuilds_in_bump (ci_graph ci) b) as [l|] eqn:R; [|discriminate].
+      intros [= <-] y br k. rewrite in_app_iff, in_map_iff. split.
+      * intros [H|(x & E & Hx)]; [left; exact H|]. injection E as E1 E2 E3. subst x br k.
+        right. split; [reflexivity|]. exists b, l. repeat split; assumption.
+      * intros [H|(Eb & b' & l' & E1 & E2 & E3 & E4 & E5)]; [left; exact H|]. right.
+        injection E3 as <-. rewrite R in E4. injection E4 as <-.
+        exists y. split; [subst; reflexivity|exact E5].
+    + intros [= <-] y br k. split; [auto|]. intros [H|(_ & b & l & _ & _ & E3 & _)]; [exact H|discriminate].
+Qed.
+
+Lemma reg_fold ci br0 rbs : forall a regs,
+  fold_left (reg_step ci br0) rbs (Some a) = Some regs ->
+  forall y br k, In (y, (br, k)) regs <-> In (y, (br, k)) a \/ (br = br0 /\ reg_src ci rbs y k).
+Proof.
+  induction rbs as [|p r IH]; intros a regs H y br k; cbn [fold_left] in H.
+  - injection H as <-. unfold reg_src. split; [auto|]. intros [H|(_ & p & b & l & [] & _)]. exact H.
+  - destruct (reg_step ci br0 (Some a) p) as [a'|] eqn:E; [|rewrite reg_fold_none in H; discriminate].
+    rewrite (IH _ _ H), (reg_step_spec _ _ _ _ _ E). unfold reg_src. split.
+    + intros [[Hy|(Eb & b & l & R)]|(Eb & q & b & l & Hq & R)].
+      * left. exact Hy.
+      * right. split; [exact Eb|]. exists p, b, l. split; [left; reflexivity|exact R].
+      * right. split; [exact Eb|]. exists q, b, l. split; [right; exact Hq|exact R].
+    + intros [Hy|(Eb & q & b & l & [<-|Hq] & R)].
+      * left. left. exact Hy.
+      * left. right. split; [exact Eb|]. exists b, l. exact R.
+      * right. split; [exact Eb|]. exists q, b, l. split; [exact Hq|exact R].
+Qed.
+
+(* every registration comes from a reported build of the named branch, and from its own bump *)
+Lemma reg_branches_spec ci branches : forall a regs,
+  reg_branches ci branches (Some a) = Some regs ->
+  forall y br k, In (y, (br, k)) regs <->
+    In (y, (br, k)) a \/ exists rbs, In (br, rbs) branches /\ reg_src ci rbs y k.
+Proof.
+  induction branches as [|b0 r IH]; intros a regs H y br k; unfold reg_branches in H; cbn [fold_left] in H.
+  - injection H as <-. split; [auto|]. intros [H|(rbs & [] & _)]. exact H.
+  - destruct (fold_left (reg_step ci (fst b0)) (snd b0) (Some a)) as [a'|] eqn:E;
+      [|change (reg_branches ci r None = Some regs) in H; rewrite reg_branches_none in H; discriminate].
+    change (reg_branches ci r (Some a') = Some regs) in H.
+    rewrite (IH _ _ H), (reg_fold _ _ _ _ _ E). destruct b0 as [n0 rbs0]. cbn [fst snd]. split.
+    + intros [[Hy|(Eb & S)]|(rbs & Hr & S)].
+      * left. exact Hy.
+      * right. exists rbs0. split; [left; subst; reflexivity|exact S].
+      * right. exists rbs. split; [right; exact Hr|exact S].
+    + intros [Hy|(rbs & [Eq|Hr] & S)].
+      * left. left. exact Hy.
+      * injection Eq as -> ->. left. right. split; [reflexivity|exact S].
+      * right. exists rbs. split; [exact Hr|exact S].
+Qed.
+
+(* ------------------------------------------------------------------ *)
+(* never missing: what the property wants recorded at a build IS recorded,
+   for every shape of parent and component history                      *)
+
+Lemma never_missing_l ci branches regs : wf (ci_graph ci) ->
+  registrations ci branches = Some regs ->
+  forall br rbs p b t y, In (br, rbs) branches -> In p rbs ->
+    bn_eqb (rb_bn (snd p)) fake_not_merged = false -> rb_bump (snd p) = Some b -> b_to b = Some t ->
+    bump_spec (ci_graph ci) (b_from b) t y -> In (y, (br, rb_bn (snd p))) regs.
+Proof.
+  intros W R br rbs p b t y Hbr Hp HF HB HT HS. rewrite registrations_unfold in R.
+  apply (reg_branches_spec _ _ _ _ R). right. exists rbs. split; [exact Hbr|].
+  destruct (rbuilds_in_bump_spec _ b t W HT) as (l & El & _ & Hl).
+  exists p, b, l. split; [exact Hp|]. split; [reflexivity|]. split; [exact HF|]. split; [exact HB|]. split; [exact El|].
+  apply Hl. exact HS.
+Qed.
+
+(* ------------------------------------------------------------------ *)
+(* included_first: the reported builds of one parent branch             *)
+
+Lemma NoDup_map_inj {A B} (f : A -> B) l a b :
+  NoDup (map f l) -> In a l -> In b l -> f a = f b -> a = b.
+Proof.
+  induction l as [|x r IH]; intros ND Ha Hb E; [destruct Ha|].
+  cbn [map] in ND. apply NoDup_cons_iff in ND as [N ND].
+  destruct Ha as [<-|Ha], Hb as [<-|Hb]; auto.
+  - exfalso. apply N. rewrite E. apply in_map. exact Hb.
+  - exfalso. apply N. rewrite <- E. apply in_map. exact Ha.
+Qed.
+
+Lemma key_unique {K V} (l : list (K * V)) k a b : NoDup (map fst l) -> In (k, a) l -> In (k, b) l -> a = b.
+Proof.
+  intros ND Ha Hb. assert ((k, a) = (k, b)) as E by (eapply (NoDup_map_inj fst); eauto).
+  injection E as ->. reflexivity.
+Qed.
+
+(* rb' is a proper ancestor build of rb within one branch of the parent *)
+Inductive panc (rbs : list (Z * rbuild)) : Z -> Z -> Prop :=
+| panc1 i rb j : In (i, rb) rbs -> In j (rb_parents rb) -> panc rbs i j
+| pancS i rb j k : In (i, rb) rbs -> In j (rb_parents rb) -> panc rbs j k -> panc rbs i k.
+
+Section Branch.
+Variable cg : cgraph.
+Variable rbs : list (Z * rbuild).
+
+(* what _mk_bumps_info establishes for the builds of a branch whose commits all pin the component
+   (bump_from is the local step): every parent build is a build of the branch and carries a bump of
+   the component; a bump whose new pin resolves to no report-related build starts from nothing; the
+   from-builds of a bump are exactly the to-builds of the parent builds' bumps *)
+Definition linked : Prop :=
+  forall i rb, In (i, rb) rbs ->
+    (forall j, In j (rb_parents rb) -> exists rb' b', In (j, rb') rbs /\ rb_bump rb' = Some b') /\
+    (forall b, rb_bump rb = Some b ->
+       (b_to b = None -> b_from b = []) /\
+       (forall f, In f (b_from b) <->
+          exists j rb' b', In j (rb_parents rb) /\ In (j, rb') rbs /\ rb_bump rb' = Some b' /\ b_to b' = Some f)).
+
+(* successive pins are ancestor-ordered in the component's build graph: the build a bump moves
+   to contains every build it moves from *)
+Definition pins_ordered : Prop :=
+  forall i rb b t f, In (i, rb) rbs -> rb_bump rb = Some b -> b_to b = Some t -> In f (b_from b) -> anc cg t f.
+
+Hypothesis L : linked.
+Hypothesis O : pins_ordered.
+Hypothesis K : NoDup (map fst rbs).
+
+(* along the branch the pinned builds then contain one another *)
+Lemma panc_to i j : panc rbs i j ->
+  forall rb b rb' b' t', In (i, rb) rbs -> rb_bump rb = Some b ->
+    In (j, rb') rbs -> rb_bump rb' = Some b' -> b_to b' = Some t' ->
+    exists t, b_to b = Some t /\ anc cg t t'.
+Proof.
+  induction 1 as [i rb0 j Hi Hj|i rb0 j k Hi Hj P IH]; intros rb b rb' b' t' Hrb Hb Hrb' Hb' Ht'.
+  - assert (rb0 = rb) by (eapply key_unique; eauto). subst rb0.
+    destruct (L i rb Hrb) as [_ L2]. destruct (L2 b Hb) as [N F].
+    assert (In t' (b_from b)) as Hf by (apply F; exists j, rb', b'; auto).
+    destruct (b_to b) as [t|] eqn:Et; [|rewrite (N eq_refl) in Hf; destruct Hf].
+    exists t. split; [reflexivity|]. exact (O i rb b t t' Hrb Hb Et Hf).
+  - assert (rb0 = rb) by (eapply key_unique; eauto). subst rb0.
+    destruct (L i rb Hrb) as [L1 L2]. destruct (L2 b Hb) as [N F].
+    destruct (L1 j Hj) as (rbj & bj & Hrbj & Hbj).
+    destruct (IH rbj bj rb' b' t' Hrbj Hbj Hrb' Hb' Ht') as (tj & Etj & A).
+    assert (In tj (b_from b)) as Hf by (apply F; exists j, rbj, bj; auto).
+    destruct (b_to b) as [t|] eqn:Et; [|rewrite (N eq_refl) in Hf; destruct Hf].
+    exists t. split; [reflexivity|]. eapply anc_trans; [|exact A]. exact (O i rb b t tj Hrb Hb Et Hf).
+Qed.
+
+(* "in the new pin and in none of the previous pins" = "in the new pin and in the pin of no
+   ancestor build of the branch" *)
+Lemma first_ship_iff i rb b t y : In (i, rb) rbs -> rb_bump rb = Some b -> b_to b = Some t ->
+  (bump_spec cg (b_from b) t y <->
+   anc cg t y /\
+   forall j rb' b' t', panc rbs i j -> In (j, rb') rbs -> rb_bump rb' = Some b' -> b_to b' = Some t' ->
+                       ~ anc cg t' y).
+Proof.
+  intros Hrb Hb Ht. destruct (L i rb Hrb) as [L1 L2]. destruct (L2 b Hb) as [_ F]. split.
+  - intros [A N]. split; [exact A|]. intros j rb' b' t' P Hrb' Hb' Ht' A'.
+    inversion P as [i0 rb0 j0 Hi Hj|i0 rb0 p j0 Hi Hp P']; subst.
+    + assert (rb0 = rb) by (eapply key_unique; eauto). subst rb0.
+      apply (N t'); [|exact A']. apply F. exists j, rb', b'. auto.
+    + assert (rb0 = rb) by (eapply key_unique; eauto). subst rb0.
+      destruct (L1 p Hp) as (rbp & bp & Hrbp & Hbp).
+      destruct (panc_to p j P' rbp bp rb' b' t' Hrbp Hbp Hrb' Hb' Ht') as (tp & Etp & Ap).
+      apply (N tp); [|eapply anc_trans; eauto]. apply F. exists p, rbp, bp. auto.
+  - intros [A N]. split; [exact A|]. intros f Hf Af.
+    apply F in Hf as (j & rb' & b' & Hj & Hrb' & Hb' & Ht').
+    apply (N j rb' b' f); auto. eapply panc1; eauto.
+Qed.
+
+End Branch.
+
+(* for every set of branches: in a branch whose builds are linked and whose successive pins are
+   ancestor-ordered, over ANY component build graph (parallel sub-branches, merges) and any shape of
+   the branch (forks and merges of builds), y is registered at a build iff that build ships y and
+   no ancestor build of it in the branch does *)
+Lemma included_first_l ci branches regs :
+  wf (ci_graph ci) -> NoDup (map fst branches) -> registrations ci branches = Some regs ->
+  forall br rbs, In (br, rbs) branches ->
+    NoDup (map fst rbs) -> NoDup (map (fun p => rb_bn (snd p)) rbs) ->
+    linked rbs -> pins_ordered (ci_graph ci) rbs ->
+    forall i rb b t y, In (i, rb) rbs -> bn_eqb (rb_bn rb) fake_not_merged = false ->
+      rb_bump rb = Some b -> b_to b = Some t ->
+      (In (y, (br, rb_bn rb)) regs <->
+       anc (ci_graph ci) t y /\
+       forall j rb' b' t', panc rbs i j -> In (j, rb') rbs -> rb_bump rb' = Some b' -> b_to b' = Some t' ->
+                           ~ anc (ci_graph ci) t' y).
+Proof.
+  intros W NB R br rbs Hbr K KB L O i rb b t y Hrb HF Hb Ht.
+  rewrite registrations_unfold in R. rewrite (reg_branches_spec _ _ _ _ R).
+  rewrite <- (first_ship_iff (ci_graph ci) rbs L O K i rb b t y Hrb Hb Ht).
+  destruct (rbuilds_in_bump_spec _ b t W Ht) as (l & El & _ & Hl).
+  split.
+  - intros [[]|(rbs' & Hr & p & b' & l' & Hp & E1 & _ & E3 & E4 & E5)].
+    assert (rbs' = rbs) by (eapply key_unique; eauto). subst rbs'.
+    assert (p = (i, rb)) by (eapply (NoDup_map_inj (fun p => rb_bn (snd p))); eauto). subst p. cbn [snd] in *.
+    rewrite Hb in E3. injection E3 as <-. rewrite El in E4. injection E4 as <-. apply Hl. exact E5.
+  - intros S. right. exists rbs. split; [exact Hbr|]. exists (i, rb), b, l. cbn [snd].
+    split; [exact Hrb|]. split; [reflexivity|]. split; [exact HF|]. split; [exact Hb|]. split; [exact El|].
+    apply Hl. exact S.
+Qed.
+
+(* ------------------------------------------------------------------ *)
+(* the same about a whole report                                        *)
+
+Definition included_at (r : report) (y : nat) : list (nat * bn) :=
+  match nfind y (r_included r) with Some l => l | None => [] end.
+
+Lemma nfind_map_key {A V} (F : nat -> V) (l : list (nat * A)) y :
+  In y (map fst l) -> nfind y (map (fun p => (fst p, F (fst p))) l) = Some (F y).
+Proof.
+  unfold nfind. induction l as [|a r IH]; intros H; [destruct H|]. cbn [map find fst].
+  destruct (fst a =? y) eqn:E.
+  - apply Nat.eqb_eq in E. cbn [snd]. rewrite E. reflexivity.
+  - apply IH. destruct H as [H|H]; [|exact H]. apply Nat.eqb_neq in E. contradiction.
+Qed.
+
+Lemma NoDup_map_filter {A B} (f : A -> B) (g : A -> bool) l : NoDup (map f l) -> NoDup (map f (filter g l)).
+Proof.
+  induction l as [|a r IH]; intros ND; [constructor|]. cbn [map] in ND. apply NoDup_cons_iff in ND as [N ND].
+  cbn [filter]. destruct (g a); [|apply IH; exact ND]. cbn [map]. constructor; [|apply IH; exact ND].
+  intros H. apply N. apply in_map_iff in H as (x & E & Hx). apply filter_In in Hx as [Hx _].
+  rewrite <- E. apply in_map. exact Hx.
+Qed.
+
+Lemma read_branches_names ci commits : forall heads prev g acc g' acc',
+  read_branches ci commits heads prev g acc = (g', acc') ->
+  map fst acc' = rev (map fst heads) ++ map fst acc.
+Proof.
+  induction heads as [|[name head] r IH]; intros prev g acc g' acc' H; cbn [read_branches] in H.
+  - injection H as _ <-. reflexivity.
+  - destruct (read_branch ci commits prev head g) as [g1 rbs1].
+    rewrite (IH _ _ _ _ _ H). cbn [map fst rev]. rewrite <- app_assoc. reflexivity.
+Qed.
+
+(* what parent_report hands over: the registrations of its branches, sorted out per component build *)
+Lemma parent_report_regs ci commits heads r : parent_report ci commits heads = Ok r ->
+  (NoDup (map fst heads) -> NoDup (map fst (r_branches r))) /\
+  exists regs, registrations ci (r_branches r) = Some regs /\
+    forall y br k, In y (map fst (ci_rbs ci)) -> (In (br, k) (included_at r y) <-> In (y, (br, k)) regs).
+Proof.
+  unfold parent_report. destruct (read_branches ci commits heads [] g_init []) as [g acc] eqn:RB.
+  destruct (g_err g); [discriminate|].
+  destruct (registrations ci (filter (fun br => nonempty (snd br)) acc)) as [regs|] eqn:R; [|discriminate].
+  intros [= <-]. cbn [r_branches]. split.
+  - intros ND. apply NoDup_map_filter. rewrite (read_branches_names _ _ _ _ _ _ _ _ RB), app_nil_r.
+    apply NoDup_rev. exact ND.
+  - exists regs. split; [exact R|]. intros y br k Hy. unfold included_at. cbn [r_included].
+    rewrite (nfind_map_key (fun y => map snd (filter (fun q => fst q =? y) regs)) (ci_rbs ci) y Hy).
+    rewrite in_map_iff. split.
+    + intros ([y' bk] & E & H). cbn [snd] in E. subst bk. apply filter_In in H as [H E]. cbn [fst] in E.
+      apply Nat.eqb_eq in E. subst y'. exact H.
+    + intros H. exists (y, (br, k)). split; [reflexivity|]. apply filter_In. split; [exact H|]. cbn [fst].
+      apply Nat.eqb_refl.
+Qed.
+
+Lemma included_first_report_l ci commits heads r :
+  wf (ci_graph ci) -> parent_report ci commits heads = Ok r -> NoDup (map fst heads) ->
+  forall br rbs, In (br, rbs) (r_branches r) ->
+    NoDup (map fst rbs) -> NoDup (map (fun p => rb_bn (snd p)) rbs) ->
+    linked rbs -> pins_ordered (ci_graph ci) rbs ->
+    forall i rb b t y, In (i, rb) rbs -> bn_eqb (rb_bn rb) fake_not_merged = false ->
+      rb_bump rb = Some b -> b_to b = Some t -> In y (map fst (ci_rbs ci)) ->
+      (In (br, rb_bn rb) (included_at r y) <->
+       anc (ci_graph ci) t y /\
+       forall j rb' b' t', panc rbs i j -> In (j, rb') rbs -> rb_bump rb' = Some b' -> b_to b' = Some t' ->
+                           ~ anc (ci_graph ci) t' y).
+Proof.
+  intros W PR NH br rbs Hbr K KB L O i rb b t y Hrb HF Hb Ht Hy.
+  destruct (parent_report_regs _ _ _ _ PR) as (NB & regs & R & HI).
+  rewrite (HI y br (rb_bn rb) Hy).
+  eapply included_first_l; eauto.
+Qed.
+
+(* ------------------------------------------------------------------ *)
+(* the full statement about a report, and its refutation                 *)
+
+(* pins never decrease along a parent branch (the property's domain): every bump's previous
+   pins are <= its new pin in the order of build numbers *)
+Definition pins_nondecr (r : report) : Prop :=
+  forall br rbs i rb b fb, In (br, rbs) (r_branches r) -> In (i, rb) rbs -> rb_bump rb = Some b ->
+    In fb (b_from_bns b) -> bn_leb fb (b_to_bn b) = true.
+
+(* every parent commit pins the component, branch names are distinct, pins never decrease:
+   component build y is recorded at the reported parent build rb exactly when rb's pin
+   contains y and no ancestor build of rb in that branch has a pin containing y *)
+Definition included_first_statement : Prop :=
+  forall ci commits heads r, wf (ci_graph ci) -> parent_report ci commits heads = Ok r ->
+    NoDup (map fst heads) -> (forall c, In c commits -> c_pin c <> None) -> pins_nondecr r ->
+    forall br rbs i rb b t y, In (br, rbs) (r_branches r) -> In (i, rb) rbs -> rb_type rb = 0%Z ->
+      rb_bump rb = Some b -> b_to b = Some t -> In y (map fst (ci_rbs ci)) ->
+      (In (br, rb_bn rb) (included_at r y) <->
+       anc (ci_graph ci) t y /\
+       forall j rb' b' t', panc rbs i j -> In (j, rb') rbs -> rb_bump rb' = Some b' -> b_to b' = Some t' ->
+                           ~ anc (ci_graph ci) t' y).
+
+(* the history of DESIGN.md section 7 (the former witness): component builds 1.1.4 <- {1.1.5, 1.1.6} <- 1.1.7
+   (RBuild iids 0, 2, 1, 3), parent builds 5.1.1 / 5.1.2 / 5.1.3 pin 1.1.1 / 1.1.5 / 1.1.7 *)
+Definition w_ci : cinfo :=
+  mkCI [(0, ((1, 1, 4)%Z, [])); (1, ((1, 1, 6)%Z, [0])); (2, ((1, 1, 5)%Z, [0])); (3, ((1, 1, 7)%Z, [1; 2]))]
+       [((1, 1, 4)%Z, (0, 0)); ((1, 1, 6)%Z, (0, 1)); ((1, 1, 5)%Z, (0, 2)); ((1, 1, 7)%Z, (0, 3))]
+       [[0; 1; 2; 3]].
+Definition w_commits : list commit :=
+  [mkC [] false [(5, 1, 1)%Z] (Some (1, 1, 1)%Z);
+   mkC [0] false [(5, 1, 2)%Z] (Some (1, 1, 5)%Z);
+   mkC [1] false [(5, 1, 3)%Z] (Some (1, 1, 7)%Z)].
+Definition w_heads : list (nat * nat) := [(0, 2)].
+
+Lemma w_ci_wf : wf (ci_graph w_ci).
+Proof. exact w_wf. Qed.
+
+(* since d037b67 component build 0 (1.1.4) is recorded at the first build that ships it only *)
+Lemma w_included :
+  exists r, parent_report w_ci w_commits w_heads = Ok r /\
+            included_at r 0 = [(0, (5, 1, 2)%Z)] /\ included_at r 1 = [(0, (5, 1, 3)%Z)] /\
+            included_at r 2 = [(0, (5, 1, 2)%Z)] /\ included_at r 3 = [(0, (5, 1, 3)%Z)].
+Proof. eexists. split; [vm_compute; reflexivity|]. vm_compute. repeat split. Qed.
+
+(* the witness that remains (finding included-at-again-after-pin-left): component builds
+   1.1.1 <- {1.1.5, 1.1.6} <- 1.1.7 (RBuild iids 0, 2, 1, 3; 1.1.5 || 1.1.6), parent builds
+   5.1.1 / 5.1.2 / 5.1.3 pin 1.1.5 / 1.1.6 / 1.1.7: build numbers never decrease, but 1.1.6 does
+   not contain 1.1.5, and the third bump only subtracts what 1.1.6 contains *)
+Definition v_ci : cinfo :=
+  mkCI [(0, ((1, 1, 1)%Z, [])); (1, ((1, 1, 6)%Z, [0])); (2, ((1, 1, 5)%Z, [0])); (3, ((1, 1, 7)%Z, [1; 2]))]
+       [((1, 1, 1)%Z, (0, 0)); ((1, 1, 6)%Z, (0, 1)); ((1, 1, 5)%Z, (0, 2)); ((1, 1, 7)%Z, (0, 3))]
+       [[0; 1; 2; 3]].
+Definition v_commits : list commit :=
+  [mkC [] false [(5, 1, 1)%Z] (Some (1, 1, 5)%Z);
+   mkC [0] false [(5, 1, 2)%Z] (Some (1, 1, 6)%Z);
+   mkC [1] false [(5, 1, 3)%Z] (Some (1, 1, 7)%Z)].
+
+Lemma v_ci_wf : wf (ci_graph v_ci).
+Proof. exact w_wf. Qed.
+
+Lemma v_included :
+  exists r, parent_report v_ci v_commits w_heads = Ok r /\
+            included_at r 2 = [(0, (5, 1, 1)%Z); (0, (5, 1, 3)%Z)].
+Proof. eexists. split; vm_compute; reflexivity. Qed.
+
+Lemma included_first_refuted_l : ~ included_first_statement.
+Proof.
+  intros S.
+  destruct (parent_report v_ci v_commits w_heads) as [r|e] eqn:E; [|vm_compute in E; discriminate].
+  specialize (S v_ci v_commits w_heads r v_ci_wf E).
+  vm_compute in E. injection E as <-.
+  match type of S with _ -> _ -> pins_nondecr ?r -> _ => set (R := r) in * end.
+  assert (NoDup (map fst w_heads)) as NH by (repeat constructor; intros []).
+  assert (forall c, In c v_commits -> c_pin c <> None) as PIN.
+  { intros c [<-|[<-|[<-|[]]]]; discriminate. }
+  assert (pins_nondecr R) as PG.
+  { intros br rbs i rb b fb Hbr. destruct Hbr as [Hbr|[]]. injection Hbr as <- <-.
+    intros [H|[H|[H|[]]]]; injection H as <- <-; cbn; intros [= <-]; cbn; intros HH;
+      repeat (destruct HH as [<-|HH]; [reflexivity|]); destruct HH. }
+  specialize (S NH PIN PG).
+  (* the third parent build (iid 2, pin -> component RBuild 3) records component build 2 (1.1.5) ... *)
+  pose proof (S 0 _ 2%Z _ _ 3 2 (or_introl eq_refl) (or_intror (or_intror (or_introl eq_refl))) eq_refl eq_refl eq_refl
+                ltac:(cbn; auto)) as [H _].
+  destruct H as [_ N]; [cbn; auto|].
+  (* ... although its ancestor build (iid 0) pins component RBuild 2 itself *)
+  eapply (N 0%Z _ _ 2).
+  - eapply pancS; [right; right; left; reflexivity|cbn; left; reflexivity|].
+    eapply panc1; [right; left; reflexivity|cbn; left; reflexivity].
+  - left. reflexivity.
+  - reflexivity.
+  - reflexivity.
+  - apply anc_refl.
+Qed.
+
+(* the guards of the proved part hold for the report of the DESIGN.md section 7 history *)
+Lemma w_guards :
+  exists r rbs, parent_report w_ci w_commits w_heads = Ok r /\ In (0, rbs) (r_branches r) /\
+    length rbs = 2 /\ NoDup (map fst rbs) /\ NoDup (map (fun p => rb_bn (snd p)) rbs) /\
+    linked rbs /\ pins_ordered (ci_graph w_ci) rbs.
+Proof.
+  eexists. eexists. split; [vm_compute; reflexivity|]. split; [left; reflexivity|].
+  split; [reflexivity|].
+  split; [cbn; repeat constructor; cbn; intuition discriminate|].
+  split; [cbn; repeat constructor; cbn; intuition discriminate|].
+  split.
+  - intros i rb [H|[H|[]]]; injection H as <- <-; cbn [rb_parents rb_bump]; split.
+    + intros j [].
+    + intros b [= <-]. cbn [b_to b_from]. split; [intros [=]|]. intros f. split; [intros []|].
+      intros (j & _ & _ & [] & _).
+    + intros j [<-|[]]. eexists. eexists. split; [left; reflexivity|reflexivity].
+    + intros b [= <-]. cbn [b_to b_from]. split; [intros [=]|]. intros f. split.
+      * intros [<-|[]]. eexists. eexists. eexists. split; [left; reflexivity|].
+        split; [left; reflexivity|]. split; reflexivity.
+      * intros (j & rb' & b' & [<-|[]] & [H|[H|[]]] & Hb & Ht); [|discriminate H].
+        injection H as <-. cbn in Hb. injection Hb as <-. cbn in Ht. injection Ht as <-. left. reflexivity.
+  - intros i rb b t f [H|[H|[]]]; injection H as <- <-; cbn; intros [= <-] [= <-]; cbn; [intros []|].
+    intros [<-|[]]. eapply anc_step; [|apply anc_refl]. cbn. auto.
 Qed.
 
 (* ------------------------------------------------------------------ *)
@@ -492,200 +874,7 @@ Proof.
 Qed.
 
 (* ------------------------------------------------------------------ *)
-(* included_first on one linear parent branch                           *)
-
-Lemma NoDup_map_inj {A B} (f : A -> B) l a b :
-  NoDup (map f l) -> In a l -> In b l -> f a = f b -> a = b.
-Proof.
-  induction l as [|x r IH]; intros ND Ha Hb E; [destruct Ha|].
-  cbn [map] in ND. apply NoDup_cons_iff in ND as [N ND].
-  destruct Ha as [<-|Ha], Hb as [<-|Hb]; auto.
-  - exfalso. apply N. rewrite E. apply in_map. exact Hb.
-  - exfalso. apply N. rewrite <- E. apply in_map. exact Ha.
-Qed.
-
-Lemma included_first_l ci br rbs bs regs :
-  wf (ci_graph ci) -> linear (ci_graph ci) ->
-  map (fun p => rb_bump (snd p)) rbs = map Some bs ->
-  (forall p, In p rbs -> bn_eqb (rb_bn (snd p)) fake_not_merged = false) ->
-  NoDup (map (fun p => rb_bn (snd p)) rbs) ->
-  chain (ci_graph ci) None bs ->
-  registrations ci [(br, rbs)] = Some regs ->
-  forall i p y, nth_error rbs i = Some p ->
-    (In (y, (br, rb_bn (snd p))) regs <->
-     ships (ci_graph ci) bs i y /\ forall j, j < i -> ~ ships (ci_graph ci) bs j y).
-Proof.
-  intros W L HB HF ND C R i p y Hp.
-  rewrite registrations_one in R. rewrite (reg_fold _ _ _ _ _ R).
-  assert (In p rbs) as Hin by (eapply nth_error_In; eauto).
-  assert (exists b, nth_error bs i = Some b /\ rb_bump (snd p) = Some b) as (b & Hb & Hpb).
-  { pose proof (map_nth_error (fun p => rb_bump (snd p)) _ _ Hp) as H. rewrite HB in H.
-    destruct (nth_error bs i) as [b|] eqn:E.
-    - rewrite (map_nth_error _ _ _ E) in H. injection H as H. eauto.
-    - apply nth_error_None in E. assert (nth_error (map Some bs) i = None) as X by (apply nth_error_None; rewrite map_length; exact E).
-      congruence. }
-  destruct (chain_first _ W L _ _ C i b Hb) as (l & El & _ & Hl).
-  split.
-  - intros [[]|(q & b' & l' & Hq & E1 & _ & E3 & E4 & E5)].
-    assert (q = p) by (eapply (NoDup_map_inj (fun p => rb_bn (snd p))); eauto). subst q.
-    rewrite Hpb in E3. injection E3 as <-. rewrite El in E4. injection E4 as <-.
-    apply Hl in E5. tauto.
-  - intros [S N]. right. exists p, b, l. split; [exact Hin|]. split; [reflexivity|]. split; [apply HF; exact Hin|].
-    split; [exact Hpb|]. split; [exact El|]. apply Hl. split; [exact S|]. split; [exact N|]. intros q [=].
-Qed.
-
-(* ------------------------------------------------------------------ *)
-(* the full statement about a report, and its refutation                 *)
-
-(* rb' is a proper ancestor build of rb within one branch of the parent *)
-Inductive panc (rbs : list (Z * rbuild)) : Z -> Z -> Prop :=
-| panc1 i rb j : In (i, rb) rbs -> In j (rb_parents rb) -> panc rbs i j
-| pancS i rb j k : In (i, rb) rbs -> In j (rb_parents rb) -> panc rbs j k -> panc rbs i k.
-
-Definition included_at (r : report) (y : nat) : list (nat * bn) :=
-  match nfind y (r_included r) with Some l => l | None => [] end.
-
-(* every bump's from-builds are contained in its to-build (pins never decrease) *)
-Definition pins_grow (cg : cgraph) (r : report) : Prop :=
-  forall br rbs i rb b t f, In (br, rbs) (r_branches r) -> In (i, rb) rbs -> rb_bump rb = Some b ->
-    b_to b = Some t -> In f (b_from b) -> anc cg t f.
-
-(* component build y is recorded at the reported parent build rb exactly when rb's pin
-   contains y and no ancestor build of rb in that branch has a pin containing y *)
-Definition included_first_statement : Prop :=
-  forall ci commits heads r, wf (ci_graph ci) -> parent_report ci commits heads = Ok r ->
-    pins_grow (ci_graph ci) r ->
-    forall br rbs i rb b t y, In (br, rbs) (r_branches r) -> In (i, rb) rbs -> rb_type rb = 0%Z ->
-      rb_bump rb = Some b -> b_to b = Some t ->
-      (In (br, rb_bn rb) (included_at r y) <->
-       anc (ci_graph ci) t y /\
-       forall j rb' b' t', panc rbs i j -> In (j, rb') rbs -> rb_bump rb' = Some b' -> b_to b' = Some t' ->
-                           ~ anc (ci_graph ci) t' y).
-
-(* the witness of DESIGN.md section 7: component builds 1.1.4 <- {1.1.5, 1.1.6} <- 1.1.7
-   (RBuild iids 0, 2, 1, 3), parent builds 5.1.1 / 5.1.2 / 5.1.3 pin 1.1.1 / 1.1.5 / 1.1.7 *)
-Definition w_ci : cinfo :=
-  mkCI [(0, ((1, 1, 4)%Z, [])); (1, ((1, 1, 6)%Z, [0])); (2, ((1, 1, 5)%Z, [0])); (3, ((1, 1, 7)%Z, [1; 2]))]
-       [((1, 1, 4)%Z, (0, 0)); ((1, 1, 6)%Z, (0, 1)); ((1, 1, 5)%Z, (0, 2)); ((1, 1, 7)%Z, (0, 3))]
-       [[0; 1; 2; 3]].
-Definition w_commits : list commit :=
-  [mkC [] false [(5, 1, 1)%Z] (Some (1, 1, 1)%Z);
-   mkC [0] false [(5, 1, 2)%Z] (Some (1, 1, 5)%Z);
-   mkC [1] false [(5, 1, 3)%Z] (Some (1, 1, 7)%Z)].
-Definition w_heads : list (nat * nat) := [(0, 2)].
-
-Lemma w_ci_wf : wf (ci_graph w_ci).
-Proof. exact w_wf. Qed.
-
-Lemma w_included :
-  exists r, parent_report w_ci w_commits w_heads = Ok r /\
-            included_at r 0 = [(0, (5, 1, 2)%Z); (0, (5, 1, 3)%Z)].
-Proof. eexists. split; vm_compute; reflexivity. Qed.
-
-Lemma included_first_refuted_l : ~ included_first_statement.
-Proof.
-  intros S.
-  destruct (parent_report w_ci w_commits w_heads) as [r|e] eqn:E; [|vm_compute in E; discriminate].
-  specialize (S w_ci w_commits w_heads r w_ci_wf E).
-  vm_compute in E. injection E as <-.
-  match type of S with pins_grow _ ?r -> _ => set (R := r) in * end.
-  assert (pins_grow (ci_graph w_ci) R) as PG.
-  { intros br rbs i rb b t f Hbr. destruct Hbr as [Hbr|[]]. injection Hbr as <- <-.
-    intros [H|[H|[]]]; injection H as <- <-; cbn; intros [= <-] [= <-]; cbn; [intros []|].
-    intros [<-|[]]. eapply anc_step; [|apply anc_refl]. cbn. auto. }
-  specialize (S PG).
-  (* the third parent build (iid 1, pin -> component RBuild 3) records component build 0 ... *)
-  pose proof (S 0 _ 1%Z _ _ 3 0 (or_introl eq_refl) (or_intror (or_introl eq_refl)) eq_refl eq_refl eq_refl) as [H _].
-  destruct H as [_ N]; [cbn; auto|].
-  (* ... although its ancestor build (iid 0) pins component RBuild 2, which contains it *)
-  eapply (N 0%Z _ _ 2).
-  - eapply panc1; [right; left; reflexivity|]. cbn. auto.
-  - left. reflexivity.
-  - reflexivity.
-  - reflexivity.
-  - eapply anc_step; [|apply anc_refl]. cbn. auto.
-Qed.
-
-(* ------------------------------------------------------------------ *)
-(* never missing: what the property wants recorded at a build IS recorded,
-   for every shape of parent and component history                      *)
-
-Lemma reg_fold_none ci br rbs : fold_left (reg_step ci br) rbs None = None.
-Proof.
-  induction rbs as [|q r IH]; [reflexivity|]. cbn [fold_left].
-  assert (reg_step ci br None q = None) as ->; [|exact IH].
-  unfold reg_step. destruct (bn_eqb _ _); [reflexivity|]. destruct (rb_bump (snd q)); reflexivity.
-Qed.
-
-Lemma reg_fold_keeps ci br rbs : forall a regs,
-  fold_left (reg_step ci br) rbs (Some a) = Some regs -> forall x, In x a -> In x regs.
-Proof.
-  induction rbs as [|p r IH]; intros a regs H x Hx; cbn [fold_left] in H.
-  - injection H as <-. exact Hx.
-  - destruct (reg_step ci br (Some a) p) as [a'|] eqn:E; [|rewrite reg_fold_none in H; discriminate].
-    apply (IH _ _ H). unfold reg_step in E.
-    destruct (bn_eqb _ _); [injection E as <-; exact Hx|].
-    destruct (rb_bump (snd p)); [|injection E as <-; exact Hx].
-    destruct (rbuilds_in_bump _ _); [|discriminate]. injection E as <-. apply in_or_app. left. exact Hx.
-Qed.
-
-Definition reg_branches (ci : cinfo) (branches : list (nat * list (Z * rbuild))) acc :=
-  fold_left (fun acc br => fold_left (reg_step ci (fst br)) (snd br) acc) branches acc.
-
-Lemma registrations_unfold ci branches : registrations ci branches = reg_branches ci branches (Some []).
-Proof. reflexivity. Qed.
-
-Lemma reg_branches_none ci branches : reg_branches ci branches None = None.
-Proof.
-  induction branches as [|b r IH]; [reflexivity|]. unfold reg_branches in *. cbn [fold_left].
-  rewrite reg_fold_none. exact IH.
-Qed.
-
-Lemma reg_branches_keeps ci branches : forall a regs,
-  reg_branches ci branches (Some a) = Some regs -> forall x, In x a -> In x regs.
-Proof.
-  induction branches as [|b r IH]; intros a regs H x Hx; unfold reg_branches in *; cbn [fold_left] in H.
-  - injection H as <-. exact Hx.
-  - destruct (fold_left (reg_step ci (fst b)) (snd b) (Some a)) as [a'|] eqn:E.
-    + apply (IH _ _ H). eapply reg_fold_keeps; eauto.
-    + change (reg_branches ci r None = Some regs) in H. rewrite reg_branches_none in H. discriminate.
-Qed.
-
-Lemma never_missing_l ci branches regs : wf (ci_graph ci) ->
-  registrations ci branches = Some regs ->
-  forall br rbs p b t y, In (br, rbs) branches -> In p rbs ->
-    bn_eqb (rb_bn (snd p)) fake_not_merged = false -> rb_bump (snd p) = Some b -> b_to b = Some t ->
-    bump_spec (ci_graph ci) (b_from b) t y -> In (y, (br, rb_bn (snd p))) regs.
-Proof.
-  intros W R br rbs p b t y Hbr Hp HF HB HT HS. rewrite registrations_unfold in R.
-  revert R. generalize (@nil (nat * (nat * bn))). induction branches as [|b0 r IH]; intros a R; [destruct Hbr|].
-  unfold reg_branches in R. cbn [fold_left] in R.
-  destruct (fold_left (reg_step ci (fst b0)) (snd b0) (Some a)) as [a'|] eqn:E;
-    [|change (reg_branches ci r None = Some regs) in R; rewrite reg_branches_none in R; discriminate].
-  destruct Hbr as [->|Hbr].
-  - cbn [fst snd] in E. eapply reg_branches_keeps; [exact R|].
-    apply (reg_fold _ _ _ _ _ E). right.
-    destruct (rbuilds_in_bump_spec _ b t W HT) as (l & El & _ & Hl).
-    exists p, b, l. split; [exact Hp|]. split; [reflexivity|]. split; [exact HF|]. split; [exact HB|]. split; [exact El|].
-    apply Hl. apply bump_set_complete. exact HS.
-  - eapply IH; eauto.
-Qed.
-
-(* ------------------------------------------------------------------ *)
 (* _mk_bumps_info: where a bump starts from                              *)
-
-Lemma nadd_In x y l : In x (nadd y l) <-> x = y \/ In x l.
-Proof.
-  induction l as [|z r IH]; cbn [nadd]; [cbn; intuition|].
-  destruct (y =? z) eqn:E; [apply Nat.eqb_eq in E; subst; cbn; intuition|].
-  destruct (y <? z); cbn [In]; [intuition|]. rewrite IH. intuition.
-Qed.
-
-Lemma nunion_In x a b : In x (nunion a b) <-> In x a \/ In x b.
-Proof.
-  unfold nunion. revert b. induction a as [|y r IH]; intros b; cbn [fold_left]; [cbn; intuition|].
-  rewrite IH, nadd_In. cbn [In]. intuition.
-Qed.
 
 (* the from-builds of a new bump are the to-builds of the parent builds' bumps
    (or, for a parent whose pin resolved to nothing, what that parent started from) *)
